@@ -144,8 +144,8 @@ def _chunk(cases) -> dict:
 def cases(thorough: bool, st) -> List[dict]:
     out: List[dict] = []
     spectra = (st["valid"] + list(LADDERS)) if thorough else (CHEAP + ["ladder:RC2", "ladder:RQ2"])
-    seeds = range(5) if thorough else range(2)
-    for sp, noise, seed in itertools.product(spectra, (0.05, 0.2, 1.0), seeds):
+    seeds = range(6) if thorough else range(2)
+    for sp, noise, seed in itertools.product(spectra, (0.02, 0.05, 0.2, 1.0) if thorough else (0.05, 0.2, 1.0), seeds):
         out.append({"part": "noise", "spectrum": sp, "noise": noise, "seed": seed})
     drift = st["with_drift"] if thorough else [s for s in CHEAP if s in st["with_drift"]]
     for sp, noise, seed in itertools.product(drift, (0.02, 0.05), seeds):
@@ -168,8 +168,8 @@ def cases(thorough: bool, st) -> List[dict]:
 def run(ctx) -> None:
     thorough = ctx.tier == "thorough"
     st = setup()
-    ctx.rule = ("every bundled valid mock circuit (8 cheapest in quick, all 19 in thorough) and RC/RQ ladders (2 / 6) x injected noise {0.05, 0.2, 1} % x "
-                "seeds 0..K-1 (K = 2 quick, 5 thorough): estimated/injected noise of the default automatic test inside the frozen band [0.33, 5], "
+    ctx.rule = ("every bundled valid mock circuit (8 cheapest in quick, all 19 in thorough) and RC/RQ ladders (2 / 6) x injected noise {0.05, 0.2, 1} % (and 0.02 % thorough) x "
+                "seeds 0..K-1 (K = 2 quick, 6 thorough): estimated/injected noise of the default automatic test inside the frozen band [0.33, 5], "
                 "suggested num_RC inside the limits returned with it, and perform_kramers_kronig_test agreeing with the exploratory entry point; "
                 "for every circuit with a drift-corrupted counterpart x noise {0.02, 0.05} % x seeds: pseudo chi-squared of the counterpart >= 2 x "
                 "that of the valid spectrum; the noise clause also with the points listed ascending / low-frequency half first; and the same judged after the same circuit was tested at another noise level (1 % <-> 0.05 %) in the same "
